@@ -76,7 +76,8 @@ Inductive skind :=
 | SDiv (guarded : bool)
 | SMakeLen (guarded : bool)
 | SCallPanic (f : string)
-| SDetailsUse (l : lockstate).
+| SDetailsUse (l : lockstate)
+| SNilParam (nil_checked : bool).      (* dereference of a parameter that some call site passes as nil *)
 
 (* s_file / s_func index the generated tables gen_files / gen_funcs (kept out
    of the record so that the inventory stays small); s_decoder marks package
@@ -97,7 +98,7 @@ Definition is_client (o : origin) : bool :=
   match o with OInternal => false | _ => true end.
 
 Definition always_relevant (k : skind) : bool :=
-  match k with SPeerClose _ | SPanic _ | SMsgSend _ | SDetailsUse _ => true | _ => false end.
+  match k with SPeerClose _ | SPanic _ | SMsgSend _ | SDetailsUse _ | SNilParam _ => true | _ => false end.
 
 Definition site_relevant (s : site) : bool :=
   negb (s_decoder s) &&
@@ -192,6 +193,7 @@ Definition exec (k : skind) (e : env) : res :=
   | SMakeLen g => if g then ROk else RPanic
   | SCallPanic _ => RPanic
   | SDetailsUse _ => ROk                                   (* not value-level: see Safety/Locks.v *)
+  | SNilParam checked => if checked then ROk else RPanic   (* the call site that passes nil exists *)
   end.
 
 (* ---------------------------------------------------------------- *)
@@ -243,6 +245,7 @@ Definition kind_safe (c : gcfg) (k : skind) : bool :=
   | SCallPanic _ => false
   | SDetailsUse LSLocked | SDetailsUse LSAfterRemoval | SDetailsUse LSFresh => true
   | SDetailsUse _ => false
+  | SNilParam checked => checked
   end.
 
 Definition site_safe (c : gcfg) (s : site) : bool := kind_safe c (s_kind s).
